@@ -1,4 +1,5 @@
-import StraxModel.Lemmas.Copy
+import StraxModel.Lemmas.CopySafe
+import StraxModel.Generated.RechunkDecisions
 /-
   Property C16 — copying, rechunking, recompressing and per-chunk merging preserve the data.
 
@@ -544,5 +545,237 @@ theorem merge_key_ignores_completeness_and_order :
     mergeChunkNumber 3 [[0], [2]] = .ok none ∧ mergeChunkNumber 2 [[1], [0]] = .ok none ∧
     mergeChunkNumber 3 [[0], [1]] = .ok (some [0, 1]) ∧ mergeChunkNumber 3 [[0], [0]] = .error Err.valueError := by
   decide
+
+/-! ## 7. never altered: the safety half of the property at its FULL quantifier (round 5)
+
+The `…_partial` theorems above say "it succeeds AND the data is preserved" and inherit the restriction to
+ordinary runs from the totality theorem of the rechunker.  The theorems of this section are their
+siblings for the half that needs no such restriction — stated for EVERY stored layout that loads at all
+(any run id, super-runs and annotated chunks included, law-abiding or not), every target size (0
+included), every `argmin` constant, every grouping: WHENEVER the operation returns normally and its
+result loads, the rows are exactly the stored rows in the same order.  Nothing is assumed that the real
+code could violate on stored data; the only premises are the observations "returned normally" and
+"loads".  What the partial siblings add is totality (+ laws, range, boundary rule) on ordinary runs. -/
+
+/-- `copy_to_frontend`, any loadable source, any flags: a copy that was written and loads has the rows of
+the source in order, chunk for chunk (ranges included) without rechunking, and its metadata agrees with
+its files (`MetaConsistent` for the list `out` of chunks written, which has the rows of the source). -/
+theorem copy_never_alters_rows (a0 : Int) (src dst : Dir) (s loaded : List Chunk) (rechunk : Bool) (rechunkTo : Nat)
+    (hload : loadDir src = .ok s) (hcopy : copyData a0 src rechunk rechunkTo = .ok dst)
+    (hld : loadDir dst = .ok loaded) :
+    rows loaded = rows s ∧ (rechunk = false → loaded.map shape = s.map shape) ∧
+    ∃ out, MetaConsistent (copyHeader src.1.hdr rechunk rechunkTo) dst.1 dst.2 out ∧ loaded.map shape = out.map shape := by
+  obtain ⟨h1, h2⟩ := copyData_rows_of_ok a0 src dst s loaded rechunk rechunkTo hload hcopy hld
+  refine ⟨h1, h2, ?_⟩
+  have hsave := hcopy
+  unfold copyData at hsave
+  simp only [hload, bind, Except.bind] at hsave
+  obtain ⟨out, hre, -, hmc⟩ := metaConsistent_of_save _ _ _ _ dst.1 dst.2 hsave
+  refine ⟨out, hmc, ?_⟩
+  rw [saveAll_eq, hre] at hsave
+  simp only [Except.map, Except.ok.injEq] at hsave
+  subst hsave
+  exact loadAll_saved_ok _ out loaded hld
+
+/-- the same for EVERY destination of the loop over several frontends as the code has it (a loader per
+target): no destination that was written and loads differs from the source in its rows -/
+theorem copy_to_all_never_alters_rows (a0 : Int) (src : Dir) (s : List Chunk) (rechunk : Bool) (rechunkTo nTargets : Nat)
+    (hload : loadDir src = .ok s) :
+    ∀ r ∈ copyToAll a0 loaderPerTarget src rechunk rechunkTo nTargets, ∀ dst loaded, r = .ok dst →
+      loadDir dst = .ok loaded → rows loaded = rows s ∧ (rechunk = false → loaded.map shape = s.map shape) := by
+  intro r hr dst loaded hrd hld
+  simp only [copyToAll, loaderPerTarget, if_true] at hr
+  have hc := copyLoop_fresh_ok a0 src rechunk rechunkTo nTargets [] r hr dst hrd
+  exact copyData_rows_of_ok a0 src dst s loaded rechunk rechunkTo hload hc hld
+
+/-- the stand-alone rechunker on ANY loadable source (destination another directory), any target size,
+rechunk / replace on or off: if it returns normally, the rewritten data `new` sits where it belongs (in
+place of the source with `replace`, the destination being gone; in the destination otherwise, the
+source being EXACTLY what it was), no temp directory is left, and if `new` loads it has the rows of
+the source in order — chunk for chunk without rechunking. -/
+theorem standalone_rechunk_never_alters_rows (a0 : Int) (guard : Bool) (st st' : Store) (src : Dir) (s : List Chunk)
+    (replace rechunk : Bool) (target : Option Nat)
+    (hsrc : st.src = some src) (hal : st.aliased = false) (hload : loadDir src = .ok s)
+    (hrun : standaloneRechunk a0 guard st replace rechunk target = (st', none)) :
+    ∃ new, (if replace then st'.src = some new ∧ st'.dst = none else st'.dst = some new ∧ st'.src = some src) ∧
+      st'.tmp = none ∧
+      ∀ loaded, loadDir new = .ok loaded →
+        rows loaded = rows s ∧ (rechunk = false → loaded.map shape = s.map shape) := by
+  obtain ⟨new, hsave, htmp, hwhere⟩ := standalone_ok_inv a0 guard st st' src s replace rechunk target hsrc hal hload hrun
+  refine ⟨new, hwhere, htmp, ?_⟩
+  intro loaded hld
+  have hr := loadAll_ranges hload
+  obtain ⟨h1, h2⟩ := saveAll_rows_of_ok a0 rechunk _ _ loaded new (by
+    intro c hc
+    simp only [List.mem_map] at hc
+    obtain ⟨c0, hc0, rfl⟩ := hc
+    have : (stamp target c0).start = c0.start ∧ (stamp target c0).stop = c0.stop := by cases target <;> exact ⟨rfl, rfl⟩
+    rw [this.1, this.2]
+    exact (hr c0 hc0).2) hsave hld
+  exact ⟨h1.trans (rows_map_stamp target s), fun h => (h2 h).trans (shape_map_stamp target s)⟩
+
+/-- rechunk on load, ANY loadable directory, ANY source size (0 included), any `argmin` constant: if the
+loader returns, it returns the stored rows in order -/
+theorem rechunk_on_load_never_alters_rows (a0 : Int) (sourceSize : Nat) (d : Dir) (s out : List Chunk)
+    (hload : loadDir d = .ok s) (hrol : rechunkOnLoad a0 sourceSize d = .ok out) : rows out = rows s := by
+  simp only [rechunkOnLoad, hload, bind, Except.bind] at hrol
+  exact rechunkStream_rows_of_ok a0 sourceSize s out (fun c hc => (loadAll_ranges hload c hc).2) hrol
+
+/-- per-chunk processing followed by merging, for ANY per-chunk computation `f` whose answers are chunks
+(`hf`: `start ≤ end` — the `Chunk` constructor refuses anything else, so this excludes nothing strax can
+produce), ANY grouping whatsoever of ANY dependency stream of chunks (`hdep`: `start ≤ end`, true of
+everything a loader yields: `Strax.Copy.loadAll_ranges`), any job headers, any flags and targets: if
+the jobs and the merge returned normally and the merged data loads, then the chunk-wise computation on
+the whole dependency at once succeeds as well (`direct`) and the merged data has exactly its rows. -/
+theorem per_chunk_merge_never_alters_rows (a0 : Int) {f : Chunk → Except Err Chunk}
+    (hf : ∀ c c', c.start ≤ c.stop → f c = .ok c' → c'.start ≤ c'.stop)
+    (groups : List (List Chunk)) (jobHdrs : List Header) (hdr : Header) (rechunkOnSave rechunk : Bool) (rechunkTo : Nat)
+    (dst : Dir) (loaded : List Chunk) (hdep : ∀ c ∈ groups.flatten, c.start ≤ c.stop)
+    (hlen : jobHdrs.length = groups.length)
+    (hrun : perChunkPipeline a0 f jobHdrs rechunkOnSave groups rechunk rechunkTo hdr = .ok dst)
+    (hld : loadDir dst = .ok loaded) :
+    ∃ direct, mapChunks f groups.flatten = .ok direct ∧ rows loaded = rows direct := by
+  unfold perChunkPipeline at hrun
+  obtain ⟨ds, hds, hrun⟩ := bind_eq_ok.1 hrun
+  unfold perChunkMerge at hrun
+  obtain ⟨L, hL, hsave⟩ := bind_eq_ok.1 hrun
+  obtain ⟨direct, hdirect, hrows, hse⟩ := jobs_rows_of_ok a0 hf rechunkOnSave rechunk rechunkTo groups jobHdrs ds L hdep hlen hds hL
+  obtain ⟨h1, -⟩ := saveAll_rows_of_ok a0 rechunk hdr L loaded dst hse hsave hld
+  exact ⟨direct, hdirect, h1.trans hrows⟩
+
+/-- the grouping does not matter, at the full quantifier: ANY two groupings of the same dependency chunks
+(empty, single-chunk, uneven groups …) whose pipelines return normally and load give the same rows -/
+theorem per_chunk_merge_grouping_independent (a0 : Int) {f : Chunk → Except Err Chunk}
+    (hf : ∀ c c', c.start ≤ c.stop → f c = .ok c' → c'.start ≤ c'.stop)
+    (g1 g2 : List (List Chunk)) (h1 h2 : List Header) (hdr : Header) (ros re : Bool) (rt : Nat)
+    (d1 d2 : Dir) (l1 l2 : List Chunk) (hdep : ∀ c ∈ g1.flatten, c.start ≤ c.stop) (hsame : g1.flatten = g2.flatten)
+    (hl1 : h1.length = g1.length) (hl2 : h2.length = g2.length)
+    (hr1 : perChunkPipeline a0 f h1 ros g1 re rt hdr = .ok d1) (hr2 : perChunkPipeline a0 f h2 ros g2 re rt hdr = .ok d2)
+    (hd1 : loadDir d1 = .ok l1) (hd2 : loadDir d2 = .ok l2) : rows l1 = rows l2 := by
+  obtain ⟨x1, hx1, e1⟩ := per_chunk_merge_never_alters_rows a0 hf g1 h1 hdr ros re rt d1 l1 hdep hl1 hr1 hd1
+  obtain ⟨x2, hx2, e2⟩ := per_chunk_merge_never_alters_rows a0 hf g2 h2 hdr ros re rt d2 l2 (hsame ▸ hdep) hl2 hr2 hd2
+  rw [hsame, hx2] at hx1
+  cases hx1
+  rw [e1, e2]
+
+/-- non-vacuity of the premises of this section on SUPER-RUN data (outside every `…_partial` theorem):
+a stored super-run directory holding an annotated chunk loads, is copied, and the copy loads. -/
+def exSuperChunk : Chunk :=
+  ⟨"src", "things", some "_sr", 0, 5000, [⟨1, 4, 0⟩, ⟨4000, 4001, 1⟩], some [⟨"a", 0, 10⟩, ⟨"b", 10, 5000⟩],
+    [⟨"_sr", 0, 5000⟩], 1⟩
+def exSuperHdr : Header := { runId := "_sr", dataType := "src", kind := "things", target := 1, pfx := "src-h" }
+def exSuperDir : Dir := (metaOf exSuperHdr [exSuperChunk], filesFrom exSuperHdr.pfx 0 [exSuperChunk])
+
+example (a0 : Int) : loadDir exSuperDir = .ok [restore exSuperHdr "_sr" exSuperChunk] ∧
+    ∃ dst loaded, copyData a0 exSuperDir false 7 = .ok dst ∧ loadDir dst = .ok loaded := by
+  have hs : spansOkB [⟨"a", 0, 10⟩, ⟨"b", 10, 5000⟩] = true := by decide
+  have hst : storableB "_sr" exSuperChunk = true :=
+    storable_of_annotated (by simp [annotatedOkB, exSuperChunk, rowsInside, hs])
+  have hld : loadDir exSuperDir = .ok [restore exSuperHdr "_sr" exSuperChunk] := by
+    have := loadAll_saved exSuperHdr "_sr" [exSuperChunk] (by simp) (by simpa using hst)
+    simpa [loadDir, exSuperDir] using this
+  refine ⟨hld, ?_⟩
+  have hst2 : storableB "_sr" (setTarget 1 (restore exSuperHdr "_sr" exSuperChunk)) = true := by
+    have : storableB "_sr" (setTarget 1 (restore exSuperHdr "_sr" exSuperChunk)) = storableB "_sr" exSuperChunk := rfl
+    rw [this]; exact hst
+  obtain ⟨md, files, h1, h2⟩ := Strax.C03.roundtrip_plain_storable a0 exSuperHdr "_sr"
+    [setTarget 1 (restore exSuperHdr "_sr" exSuperChunk)] (by simp) (by simpa using hst2)
+  refine ⟨(md, files), _, ?_, h2⟩
+  unfold copyData
+  simp only [hld, bind, Except.bind]
+  exact h1
+
+/-- … and `hf` holds of the harness plugin (a row filter keeps the range of its input chunk) -/
+example (dt : String) (tt : Nat) (p : Row → Bool) :
+    ∀ c c', c.start ≤ c.stop → (pure (filterChunk dt tt p c) : Except Err Chunk) = .ok c' → c'.start ≤ c'.stop := by
+  intro c c' hc h
+  simp only [pure, Except.pure, Except.ok.injEq] at h
+  subst h; exact hc
+
+/-- `hdep` holds of every stream a loader yields -/
+example (d : Dir) (s : List Chunk) (h : loadDir d = .ok s) : ∀ c ∈ s, c.start ≤ c.stop :=
+  fun c hc => (loadAll_ranges h c hc).2
+
+/-! ## 8. the decisions in the source today are the model's (translator, round 5)
+
+`Strax.Generated.{mergeDropsChunkNumber, moveDirectories, destGuardBeforeSaver, moveAfterSave}` are regenerated from
+the Python AST of `/repo/strax/context.py` (`merge_per_chunk_storage`) and `/repo/strax/storage/file_rechunker.py`
+(`_move_directories`, `rechunker`) on every run of the check (`checks/props/c16.py:regen`).  A change of one of these
+decisions in the source changes the generated definition and breaks the proof here. -/
+
+/-- the plain-key test of `merge_per_chunk_storage` as it stands in the source
+(`min(...) == 0 and max(...) == len(chunks) - 1`) is the model's `lo = 0 && hi + 1 = nChunks`, for all naturals -/
+theorem generated_merge_test_eq_model (lo hi n : Nat) :
+    Generated.mergeDropsChunkNumber lo hi n = (decide (lo = 0) && decide (hi + 1 = n)) := by
+  simp only [Generated.mergeDropsChunkNumber]
+  by_cases h1 : lo = 0 <;> by_cases h2 : hi + 1 = n <;> simp [h1, h2] <;> omega
+
+/-- `mergeChunkNumber` (the model of `_chunk_number` in `merge_per_chunk_storage`) decides with the GENERATED test:
+every theorem about the merged key (`merge_key_plain_for_partition`, `merge_key_ignores_completeness_and_order`) is a
+theorem about the test in today's source -/
+theorem generated_merge_key (nChunks : Nat) (groups : List (List Nat)) :
+    mergeChunkNumber nChunks groups =
+      (if hasDup groups.flatten then throw Err.valueError
+       else match listMin groups.flatten, listMax groups.flatten with
+        | some lo, some hi =>
+          if Generated.mergeDropsChunkNumber lo hi nChunks then pure none else pure (some groups.flatten)
+        | _, _ => throw Err.valueError) := by
+  simp only [mergeChunkNumber, generated_merge_test_eq_model]
+  rfl
+
+/-- hence, with the test of today's source: every proper grouping is stored under the plain key … -/
+theorem generated_merge_test_partition (n : Nat) (hn : 1 ≤ n) : Generated.mergeDropsChunkNumber 0 ((n - 1 : Nat) : Int) n = true := by
+  have h : ((n - 1 : Nat) : Int) = (n : Int) - 1 := by omega
+  simp [Generated.mergeDropsChunkNumber, h]
+
+/-- … and a selection that does not start at chunk 0 or does not reach the last chunk never is (the shape of seeded
+change C16-2: dropping `chunk_number` as soon as the last chunk is reached) -/
+theorem generated_merge_test_truncated (lo hi n : Nat) (h : lo ≠ 0 ∨ hi + 1 ≠ n) :
+    Generated.mergeDropsChunkNumber lo hi n = false := by
+  rw [generated_merge_test_eq_model]
+  rcases h with h | h <;> simp [h]
+
+/-- `_move_directories` as it stands in the source issues exactly the tail of the model's plan: with `replace`,
+`rmtree(source)` then `move(dest, source)`; nothing otherwise -/
+theorem generated_move_eq_model (replace : Bool) :
+    Generated.moveDirectories replace = (if replace then [FsOp.rmSrc, FsOp.moveDst] else []).map FsOp.kind := by
+  cases replace <;> rfl
+
+/-- the plan of EVERY successful run (any loadable or unloadable source, any store) ends with the operations of
+today's `_move_directories`, and everything before them leaves the source alone (`safeOp`: init / write / close) -/
+theorem generated_move_is_plan_tail (a0 : Int) (guard : Bool) (st : Store) (replace rechunk : Bool) (target : Option Nat)
+    (ops : List FsOp) (h : rechunkPlan a0 guard st replace rechunk target = (ops, none)) :
+    ∃ safe tail, ops = safe ++ tail ∧ tail.map FsOp.kind = Generated.moveDirectories replace ∧
+      ∀ o ∈ safe, safeOp o = true := by
+  unfold rechunkPlan at h
+  split at h
+  · cases h
+  · rename_i d hd
+    split at h
+    · cases h
+    · simp only at h
+      split at h
+      · cases h
+      · rename_i cs hcs
+        generalize saveFrom a0 rechunk (rechunkHeader d.1.hdr target) (cs.map (stamp target)) = r at h
+        obtain ⟨sv, e⟩ := r
+        simp only [Prod.mk.injEq] at h
+        obtain ⟨hops, he⟩ := h
+        subst he
+        simp only [Option.isNone_none, Bool.true_and] at hops
+        have hsafe := writePlan_safe (rechunkHeader d.1.hdr target) sv.md sv.files
+        cases replace with
+        | false =>
+          simp only [Bool.false_eq_true, if_false] at hops
+          exact ⟨writePlan (rechunkHeader d.1.hdr target) sv.md sv.files, [], by rw [← hops]; simp [writePlan], rfl, hsafe⟩
+        | true =>
+          simp only [if_true] at hops
+          exact ⟨writePlan (rechunkHeader d.1.hdr target) sv.md sv.files, [.rmSrc, .moveDst], hops.symm, rfl, hsafe⟩
+
+/-- the guard of fix D24 stands in the source where the model has it (after the destination is resolved, before the
+saver — whose constructor removes an existing destination — is created), and the directories are moved only after
+the saver was created and the loader exhausted.  `dest_is_source_refused` is therefore about today's source. -/
+theorem generated_dest_guard : Generated.destGuardBeforeSaver = destGuard ∧ Generated.moveAfterSave = true :=
+  ⟨rfl, rfl⟩
 
 end Strax.C16
